@@ -9,10 +9,12 @@ CONSTANTS
   AllowKF = TRUE
   Taint = TRUE
   Flips = TRUE
+  Cuts = {1, 2, 3, 4}
+  CutTail = 1
   MaxOps = 0
   Emit = FALSE
 INVARIANTS TypeOK Coherent Expiring PremiseSetsTight DbIntegrity FiniteTTL
 PROPERTIES PropReadsTrue PropStaleOnlyKnown PropServedFromCache PropErrorsNotCached PropFailFast
-  PropCleanerRestores PropWriteInvalidates
+  PropCleanerRestores PropWriteInvalidates PropWriteOwes PropCutClean
 VIEW View
 CHECK_DEADLOCK FALSE
